@@ -3,6 +3,9 @@ package corpus
 import (
 	"fmt"
 	"go/token"
+	"os"
+	"path/filepath"
+	"regexp"
 	"runtime"
 	"sort"
 	"strings"
@@ -37,9 +40,10 @@ func Infos() []*linter.CheckerInfo {
 
 // Variant is a checker together with one parameter assignment.
 type Variant struct {
-	Info   *linter.CheckerInfo
-	Tag    string                 // "" = defaults, else "param=value"
-	Values map[string]interface{} // overrides
+	Info    *linter.CheckerInfo
+	Tag     string                 // "" = defaults, else "param=value"
+	Values  map[string]interface{} // overrides
+	MayFail bool                   // the constructor may legitimately return an error for this setting
 }
 
 func (v Variant) String() string {
@@ -75,7 +79,54 @@ func Variants(infos []*linter.CheckerInfo) []Variant {
 				}
 			}
 		}
+		if info.Name == "ruleguard" {
+			out = append(out, ruleguardVariants(info)...)
+		}
 	}
+	return out
+}
+
+// UserRulesFile is the user rule file the dynamic ruleguard checker is run with.
+func UserRulesFile() string {
+	return filepath.Join(VerifRoot(), "corpus", "framework_rules", "typed_rules.go")
+}
+
+var reRuleGroup = regexp.MustCompile(`(?m)^func (\w+)\(m dsl\.Matcher\)`)
+
+// ruleguardVariants: the dynamic checker with a user rules file, and every string parameter at values drawn from the
+// domain it names: debug = each loaded group / an unknown group; enable, disable = groups, tags, unknown names;
+// failOn = its documented values and an undocumented one; failOnError. A constructor that returns an error is a
+// legitimate outcome for these (C18/C19 decide which); a panic is not.
+func ruleguardVariants(info *linter.CheckerInfo) []Variant {
+	rules := UserRulesFile()
+	data, err := os.ReadFile(rules)
+	if err != nil {
+		return nil
+	}
+	var groups []string
+	for _, m := range reRuleGroup.FindAllStringSubmatch(string(data), -1) {
+		groups = append(groups, m[1])
+	}
+	mk := func(tag string, kv ...interface{}) Variant {
+		vals := map[string]interface{}{"rules": rules}
+		for i := 0; i+1 < len(kv); i += 2 {
+			vals[kv[i].(string)] = kv[i+1]
+		}
+		return Variant{Info: info, Tag: "rules=user," + tag, Values: vals, MayFail: true}
+	}
+	out := []Variant{mk("defaults")}
+	for _, g := range append(append([]string{}, groups...), "noSuchGroup") {
+		out = append(out, mk("debug="+g, "debug", g))
+		out = append(out, mk("enable="+g, "enable", g))
+		out = append(out, mk("disable="+g, "disable", g))
+	}
+	out = append(out, mk("enable=#diagnostic", "enable", "#diagnostic"), mk("disable=#experimental", "disable", "#experimental"),
+		mk("enable=empty", "enable", ""), mk("enable="+strings.Join(groups, ","), "enable", strings.Join(groups, ",")),
+		mk("debug+disable", "debug", groups[0], "disable", groups[0]))
+	for _, fo := range []string{"all", "import", "dsl", "import,dsl", "bogus"} {
+		out = append(out, mk("failOn="+fo, "failOn", fo))
+	}
+	out = append(out, mk("failOnError", "failOnError", true))
 	return out
 }
 
